@@ -10,7 +10,7 @@ MANIFEST = dict(
     ref="DESIGN.md 3/C18",
 )
 RULE = (
-    "W9: all binary tree shapes up to N nodes (quick 8, thorough 10), full binary trees up to 15 nodes, random full trees to 49 "
+    "W9: all binary tree shapes up to N nodes (quick 9, thorough 11), full binary trees up to 15 nodes, random full trees to 49 "
     "nodes, random shapes to 60 nodes, parsed expression trees; unit multipliers {1, 2, 0.5, 10} x {1, 3, 0.25, 7}; every tree laid "
     "out twice and mirrored.  distinct non-trivial = (shape, multipliers) with >= 3 nodes whose invariants were all evaluated."
 )
@@ -192,7 +192,7 @@ def run(rec, cfg):
     rec.accept = {"layout"}
     attach_layout("C18")
     rng = cfg.rng("c18")
-    nmax = cfg.scale(8, 10)
+    nmax = cfg.scale(9, 11)
     idx = 0
     for s in W9.all_shapes_upto(nmax):
         idx += 1
